@@ -44,6 +44,8 @@ static void xrep0_pipe_recv_cb(void *arg)
 __CPROVER_requires(__CPROVER_is_fresh(arg, sizeof(struct xrep0_pipe)))
 __CPROVER_requires(__CPROVER_is_fresh(XS, sizeof(struct xrep0_sock)) && RR_TTL_OK(XS->ttl.v) && VP_NO_LOCK_HELD)
 __CPROVER_requires(XP->aio_recv.a_result == 0 && RR_WIRE_MSG(XM) && CH_GHOST_PRE(&XM->m_body) && RR_BODY_GHOSTS(XM))
+/* case split over the GHOST index only (the two units together cover every g_k) */
+__CPROVER_requires(RR_GK_CASE)
 __CPROVER_assigns(XP->aio_recv.a_msg, XP->aio_putq.a_msg, VP_PROTO_GHOST_LIST, VP_RR_GHOST_LIST, g_free_calls)
 __CPROVER_assigns(*XM)
 __CPROVER_frees(XM, XM->m_body.ch_buf)
